@@ -165,6 +165,28 @@ def gen_cases(rng, tier):
     for i, b in enumerate(bodies(2)):
         yield {'op': 'sare', 'mode': 'with', 'r0': i % 2, 'oc': i % NCLS, 'ok': i % 3, 'body': lab(['seq', ['tamper'], b], i)}
         yield {'op': 'sare', 'mode': 'with', 'r0': (i + 1) % 2, 'oc': i % NCLS, 'ok': i % 3, 'body': lab(['seq', b, ['tamper']], i)}
+    # tamper, then a context (nested / re-entered / filter) that saves or logs the tampered exception: the logged traceback is
+    # the (empty) one captured after the tampering, whatever the exception's __context__/__cause__ chain shows
+    tpre = [['tamper'], ['filter', 0, 0, ['tamper']], ['try', ['nested', 1, 0, ['tamper']], ['noop']]]
+    tpost = [['nested', 1, 0, ['raise', 0, 0, 0]], ['nested', 0, 0, ['raise', 0, 0, 0]], ['nested', 1, 0, ['noop']],
+             ['nested', 1, 0, ['seq', ['capture', 0], ['raise', 0, 0, 0]]], ['nested', 1, 0, ['fcall', 2, 2, 0]],
+             ['filter', 0, 0, ['nested', 1, 0, ['raise', 0, 0, 0]]], ['raise', 0, 0, 0], ['fcall', 0, 0, 0]]
+    for a in tpre:
+        for b in tpost:
+            for ok in range(3):
+                for r0 in (0, 1):
+                    n += 1
+                    core = ['seq', a, b]
+                    yield {'op': 'sare', 'mode': 'with', 'r0': r0, 'oc': n % NCLS, 'ok': ok, 'body': lab(core, n)}
+                    yield {'op': 'sare', 'mode': 'with', 'r0': r0, 'oc': n % NCLS, 'ok': ok,
+                           'body': lab(['try', ['raise', 0, 0, 0], core], n)}
+                    yield {'op': 'sare', 'mode': 'with', 'r0': r0, 'oc': n % NCLS, 'ok': ok,
+                           'body': lab(['try', ['nested', 1, 0, ['seq', ['capture', 0], ['raise', 0, 0, 0]]], core], n)}
+                    yield {'op': 'sare', 'mode': 'reuse', 'r0': r0, 'oc': n % NCLS, 'ok': ok,
+                           'pre': lab(['try', ['raise', 0, 0, 0], ['seq', a, ['try', ['withctx', 0, b], ['noop']]]], n),
+                           'body': relabel(core, [499], lambda m: ((n + m) % NCLS, m % 3))}
+            yield {'op': 'filter', 'p': n % len(P.PREDS), 'use': n % 3, 'body': lab(['try', ['raise', 0, 0, 0], ['seq', a, b]] if b[0] != 'nested' or True else b, n)}
+            yield {'op': 'rpoe', 'rm': 1 + n % 6, 'body': lab(['try', ['raise', 0, 0, 0], ['seq', a, b]], n)}
     # ONE context object entered more than once: earlier rounds under other exceptions (with blocks whose outcome is
     # caught - a loop unrolled -, or an explicit capture()), then the with block under the original exception
     def rounds(k, bs, caps):
